@@ -91,6 +91,27 @@ func main() {
 		fmt.Print(a.Digest())
 		return
 	}
+	if strings.HasPrefix(*dump, "sx:") {
+		r := newReport("dump")
+		c, err := loadCtx(*repo, amd64, r)
+		if err != nil {
+			fmt.Fprintln(os.Stderr, err)
+			os.Exit(2)
+		}
+		fd := c.Decl(strings.TrimPrefix(*dump, "sx:"))
+		if fd == nil {
+			fmt.Fprintln(os.Stderr, "no such function")
+			os.Exit(2)
+		}
+		sx := c.NewSX()
+		for _, n := range strings.Split(os.Getenv("SX_NOINLINE"), ",") {
+			sx.NoInline[n] = true
+		}
+		for i, p := range sx.Run(fd) {
+			fmt.Printf("== path %d\n%s", i+1, c.pathStr(p, "  "))
+		}
+		return
+	}
 	p := registry[*prop]
 	if p == nil {
 		fmt.Fprintf(os.Stderr, "unknown property %q\n", *prop)
